@@ -105,7 +105,11 @@ fn main() {
                 let st = strategy(Tier::Quick);
                 for i in 0..n {
                     if let Ok(t) = st.new_tree(&mut r) {
-                        let body = serde_json::json!({"part": part.name, "scenario": t.current()});
+                        let sc = t.current();
+                        if !runner::fuzz_sane(&sc) {
+                            continue;
+                        }
+                        let body = serde_json::json!({"part": part.name, "scenario": sc});
                         std::fs::write(format!("{}/{}-{}-{}.json", dir, prop, part.name, i), serde_json::to_string(&body).unwrap()).unwrap();
                     }
                 }
